@@ -52,11 +52,23 @@ def run_unit(c):
     env = ProbeEnvironment(probe)
     cluster = Cluster(env, Config(path))
     m = cluster.machines[0]
-    script = _Script(probe, "table", {"#0": c["delay"]})
+    probe.horizon = 400
+    if c.get("prior") is not None:
+        # an earlier task on the SAME machine object: what it leaves behind
+        # on the machine must not change the next task's runtime
+        t0 = Task("x_0_p", 0, 0, m.id, [], c["prior"], 0, {},
+                  ScriptedDelay(_Script(probe, "table", {})))
+        env.process(cluster.allocate_task_to_cluster(t0, m))
+        try:
+            while env._queue:
+                env.step()
+        except Exception as e:
+            return {"error": "prior task: %r" % (e,)}
+    script = _Script(probe, "table", {"#0": c["delay"]} if c.get("prior")
+                     is None else {"#1": c["delay"]})
     t = Task("x_0_0", 0, 0, m.id, [], c["comp"], c["data"], {},
              ScriptedDelay(script))
     env.process(cluster.allocate_task_to_cluster(t, m))
-    probe.horizon = 200
     try:
         while env._queue:
             env.step()
@@ -64,7 +76,7 @@ def run_unit(c):
         return {"error": "never released"}
     except Exception as e:
         return {"error": repr(e)}
-    al = [a for a in probe.acts if a["kind"] == "alloc"][0]
+    al = [a for a in probe.acts if a["kind"] == "alloc"][-1]
     nominal = max(int(c["comp"] / (c["cpu"] * f)),
                   int(c["data"] / (c["bw"] * f)))
     return {"ast": t.ast, "aft": t.aft, "released": al["t1"],
@@ -148,6 +160,20 @@ def speed_sweep(tier):
                 yield unit_case(0, w, 1, c, 0, "seconds")
 
 
+def fractional_domain(tier):
+    """speeds and demands that are not whole numbers (a system described in
+    TFLOP/s): the demand an exact multiple of the speed, after an earlier
+    task on the same machine"""
+    speeds = (0.3, 0.6, 0.9, 1.2, 0.1, 0.7, 2.5)
+    for cpu in speeds:
+        for k in range(0, 9 if tier != "thorough" else 17):
+            for prior in (None, 1.5, 0.7, 2.1):
+                comp = k * cpu
+                c = unit_case(comp, 0, cpu, 1, 0, "seconds")
+                c["prior"] = prior
+                yield c
+
+
 def history_domain(tier):
     """Two-step histories: the same (comp, data, delay) first on a machine of
     the same id with another speed, bandwidth or timestep unit."""
@@ -172,7 +198,8 @@ def run(rep, tier, seed):
     rep.assumptions = ["delay model output injected through the "
                        "generate_delay seam (ScriptedDelay)"]
     items = common.rotate(list(domain(tier)) + list(history_domain(tier))
-                          + list(speed_sweep(tier)), seed)
+                          + list(speed_sweep(tier))
+                          + list(fractional_domain(tier)), seed)
 
     def work(i, c):
         r = run_unit(c)
@@ -185,7 +212,12 @@ def run(rep, tier, seed):
         sc["executions"] += 1
         rep.evaluations += 1
         rep.transitions += r.get("events", 0)
-        if c["cpu"] > 16 or c["bw"] > 16:
+        if "prior" in c:
+            sc = rep.scope("E3-task-unit/fractional-speeds")
+            sc["cases"] += 1
+            sc["executions"] += 1 + (c["prior"] is not None)
+            sc = rep.scope("E3-task-unit")
+        elif c["cpu"] > 16 or c["bw"] > 16:
             sc = rep.scope("E3-task-unit/speed-sweep")
             sc["cases"] += 1
             sc["executions"] += 1
